@@ -329,4 +329,6 @@ def run(ctx: Ctx, tier: str) -> Result:
     borrow(ctx, res, tier, "c13", ("C13.ARGS",), "C17.DEFS", "the metric definitions a caller registered stay as given (name, namespace, labels are not written to: the same definition on another tracepoint means the same)")
     borrow(ctx, res, tier, "c10", ("C10.CONTAIN",), "C17.FAILED", "a failing expression yields the exception itself, which is no number: the value falls back to 1 (an error text that reads as a number would be reported as the value)")
     borrow(ctx, res, tier, "c20", ("C20.LOAD",), "C17.NOPROC", "`a metric processor is active` is asked of the plugins loaded now: no answer remembered from an earlier plugin set")
+    borrow(ctx, res, tier, "c10", ("C10.SCOPE", "C10.CONTAIN"), "C17.VALUE", "a metric expression that fails yields the default for that metric only: the failure reaches the metric code as a value, "
+           "not as an exception that skips the metrics after it")
     return res
